@@ -22,7 +22,10 @@ import warnings
 import numpy as np
 
 from harness import core
-from props.c07 import snapshot, _mc_module, _violation, choose_containers, ALL_CONTAINERS, SMALL_HEAP
+from props.c07 import (snapshot, _mc_module, _violation, choose_containers, ALL_CONTAINERS, SMALL_HEAP, FORMS, TOL,
+                       rel_mismatch, _describe, _form_snapshot, single_thread, big, br_vec, line_matrix,
+                       line_containers, line_cases, line_module, LINE_CONSTANTS, LINE_SIZES, LINE_SMALL,
+                       _replay_line_results)
 
 SPEC_DIR = os.path.join(core.SPECS, "tpt")
 INVS = ["FTypeOK", "Solvable", "RatOK", "FRatOK",
@@ -54,8 +57,14 @@ def _flat(rows):
     return [x for r in rows for x in r]
 
 
-def _mismatch(got, exp, shape):
-    """exp: flat list of [num, den]; got: ndarray / sparse matrix."""
+POPSCALE = 2.0 ** -30     # Flux.tla / LineFlux.tla ScalingLaw: fluxes and net fluxes are homogeneous of degree one in
+                          # the populations handed in, reactive populations of degree zero; a power of two scales
+                          # floating-point numbers exactly, and 2^-30 puts every flux of the small scopes below 1e-8
+
+
+def _mismatch(got, exp, shape, factor=1.0, tol=TOL):
+    """exp: flat list of [num, den] or a float array; got: ndarray / sparse matrix; entries are compared RELATIVELY
+    (c07.rel_mismatch: tol per entry + a floor of a tenth of tol times the largest expected entry)."""
     import scipy.sparse as sp
     try:
         g = got.toarray() if sp.issparse(got) else np.asarray(got)
@@ -64,15 +73,42 @@ def _mismatch(got, exp, shape):
         return "result not numeric: %s" % ex
     if g.shape != shape:
         return {"got_shape": list(g.shape), "expected_shape": list(shape)}
-    g = g.ravel()
-    for k, (x, (num, den)) in enumerate(zip(g, exp)):
-        if not (np.isfinite(x) and core.close(float(x), num, den)):
-            return {"flat_index": k, "got": g.tolist(), "expected": [a / b for a, b in exp]}
-    return None
+    if isinstance(exp, np.ndarray):
+        e = exp * factor
+    else:
+        e = np.array([a / b for a, b in exp], dtype=float).reshape(shape) * factor
+    idx = rel_mismatch(g, e, tol)
+    return None if idx is None else _describe(g, e, idx)
+
+
+def _call_flux(bad, kinds, fname, cont, what, M, f_src, f_snk, pops, e, shape, factor=1.0, tol=TOL, judge=True):
+    """one call of tpt.<fname>; appends mismatch records to bad"""
+    from enspara import tpt
+    args = [M, f_src, f_snk] + ([pops] if pops is not None else [])
+    before = [_form_snapshot(a) for a in args]
+    try:
+        with warnings.catch_warnings(), np.errstate(all="ignore"):
+            warnings.simplefilter("ignore")
+            got = getattr(tpt, fname)(M, f_src, f_snk, populations=pops)
+    except Exception as ex:
+        if fname == "net_fluxes" and not cont.startswith("dense"):
+            key = "net_fluxes/sparse/raises"
+        else:
+            key = "%s/%s/raises-%s" % (fname, cont, type(ex).__name__)
+        bad.append({"key": key, "call": what, "detail": "raised %s: %s" % (type(ex).__name__, ex)})
+        return
+    if [_form_snapshot(a) for a in args] != before:
+        bad.append({"key": "%s/%s/input-modified" % (fname, cont), "call": what,
+                    "detail": "an argument was modified by the call"})
+    kinds["%s/%s" % (fname, cont)] = type(got).__name__
+    if not judge:
+        return
+    mm = _mismatch(got, e, shape, factor, tol)
+    if mm is not None:
+        bad.append({"key": "%s/%s/value" % (fname, cont), "call": what, "detail": mm})
 
 
 def replay_case(c):
-    from enspara import tpt
     n = c["n"]
     den = np.array(c["den"], dtype=float)
     T = np.array(c["A"], dtype=float) / den[:, None]
@@ -83,37 +119,138 @@ def replay_case(c):
            "net_fluxes": (_flat(c["net"]), (n, n)),
            "reactive_populations": (c["rp"], (n,))}
     bad, kinds = [], {}
+    formname, form = FORMS[c.get("form", 0) % len(FORMS)]
     for cont, M in _containers(T):
         if cont not in c.get("containers", ALL_CONTAINERS):
             continue
-        for pname, pops in (("given", pops_given), ("None", None)):
+        # populations given / None with sources and sinks as sorted arrays; given again with another order / integer
+        # container of the same sets; populations scaled by 2^-30 (all results but reactive_populations scale too)
+        for pname, pops, factor, fsrc, fsnk in (("given", pops_given, 1.0, np.array, np.array),
+                                                ("None", None, 1.0, np.array, np.array),
+                                                ("given*2^-30 sets as %s" % formname, pops_given * POPSCALE, POPSCALE,
+                                                 form, form)):
             for fname in ("reactive_fluxes", "net_fluxes", "reactive_populations"):
                 e, shape = exp[fname]
                 what = "%s %s populations=%s" % (fname, cont, pname)
-                a_src, a_snk = np.array(src), np.array(snk)
-                args = [M, a_src, a_snk] + ([pops] if pops is not None else [])
-                before = [snapshot(a) for a in args]
-                try:
-                    with warnings.catch_warnings(), np.errstate(all="ignore"):
-                        warnings.simplefilter("ignore")
-                        got = getattr(tpt, fname)(M, a_src, a_snk, populations=pops)
-                except Exception as ex:
-                    if fname == "net_fluxes" and not cont.startswith("dense"):
-                        key = "net_fluxes/sparse/raises"
-                    else:
-                        key = "%s/%s/raises-%s" % (fname, cont, type(ex).__name__)
-                    bad.append({"key": key, "call": what, "detail": "raised %s: %s" % (type(ex).__name__, ex)})
+                judge = not (fname == "reactive_populations" and not e)
+                # (no state strictly between the sets: 0/0, outside the property)
+                if factor != 1.0 and fname == "reactive_populations" and cont != "dense":
                     continue
-                if [snapshot(a) for a in args] != before:
-                    bad.append({"key": "%s/%s/input-modified" % (fname, cont), "call": what,
-                                "detail": "an argument was modified by the call"})
-                kinds["%s/%s" % (fname, cont)] = type(got).__name__
-                if fname == "reactive_populations" and not e:
-                    continue        # no state strictly between the sets: 0/0, outside the property
-                mm = _mismatch(got, e, shape)
-                if mm is not None:
-                    bad.append({"key": "%s/%s/value" % (fname, cont), "call": what, "detail": mm})
+                _call_flux(bad, kinds, fname, cont, what, M, fsrc(src), fsnk(snk), pops, e, shape,
+                           factor=1.0 if fname == "reactive_populations" else factor, judge=judge)
     return {"bad": bad, "kinds": kinds}
+
+
+# ------------------------------------------------------------------ LineFlux.tla: large chains, stiff chains
+
+LINE_FLUX_INVS = ["ChainOK", "RangeOK", "PinnedSources", "PinnedSinks", "InUnit", "FirstStep", "BackwardFirstStep",
+                  "FluxDef", "NetDef", "NetOneDirection", "Conservation", "NoInflowToSources", "NoOutflowFromSinks",
+                  "SourceOutEqSinkIn", "SomeFlux", "PopsProbability", "PopsDefinedIffReactive", "ScalingLaw"]
+TWO30 = 2 ** 30
+TOL_STIFF = 1e-8         # chains whose weights span >= 4 orders of magnitude (condition number of the committor system
+TOL_STIFF_NONE = 1e-5    # ~ that span; measured 1.4e-10), and with populations=None (eigenvector of the code: 9e-8)
+TOL_LARGE_NONE = 1e-6    # ~1000 states, populations=None: dense / ARPACK eigenvector of the code (measured 1e-8)
+
+
+def stiff_cases(first_id):
+    """small chains with parameters of very different magnitude (1-based states): K = weight of the fast edges"""
+    out = []
+
+    def add(n, wov, sov, src, snk, wpat=(1,), spat=(1,)):
+        for pscale in ((1, 1), (1, TWO30)):
+            out.append(dict(id=first_id + len(out), n=n, mode="flux", src=set(src), snk=set(snk), cols=set(), lag=(1, 1),
+                            wpat=list(wpat), spat=list(spat), wov=sorted(wov.items()), sov=sorted(sov.items()),
+                            pscale=pscale))
+    for K in (250000, 1000000):
+        # a metastable core of rapidly interconverting states between two slow exits: forward and backward flux
+        # inside the core agree to 2/K of their size, their difference is the whole net flux
+        add(6, {2: K, 3: K, 4: K}, {1: 4 * K, 6: 4 * K}, [1], [6])
+        add(4, {2: K}, {1: 4 * K, 2: K, 3: K, 4: 4 * K}, [1], [4])
+        # a rare state (weight 2) between fast blocks; two sources
+        add(7, {1: K, 2: K, 5: K, 6: K}, {1: 5 * K, 7: 3 * K}, [1, 2], [7])
+        # source in the middle of the core, sinks on both sides
+        add(8, {3: K, 4: K, 5: K}, {1: 2 * K, 8: 3 * K}, [4], [1, 8])
+    # two basins of weight 1e8 and a thin bridge: every net flux is 1.25e-9 for the stationary probabilities
+    add(6, {}, {1: 10 ** 8, 6: 10 ** 8}, [1], [6], wpat=(1, 2, 1), spat=(0, 1))
+    add(7, {}, {1: 10 ** 8, 4: 3 * 10 ** 7, 7: 10 ** 8}, [7], [1, 2], wpat=(2, 1), spat=(1, 0, 0))
+    return out
+
+
+def _line_flux_jobs(ctx, d):
+    jobs = []
+    cfg = core.write_cfg(os.path.join(d, "lineflux.cfg"), init="FInit", next_="FNext",
+                         invariants=LINE_FLUX_INVS + ["EmitFInv"],
+                         constants=dict(LINE_CONSTANTS, Emit="FALSE", EmitF="TRUE"))
+    nid = 1
+    for n in LINE_SIZES[ctx.tier]:
+        cases = line_cases([n], ["flux"], [(1, 1)], first_id=nid)
+        cases[1]["pscale"] = (1, TWO30)
+        nid += len(cases)
+        for k, c in enumerate(cases):       # one process per large case
+            mod = line_module(d, "MCLineFlux%d_%d" % (n, k), [c], base="LineFlux")
+            jobs.append(dict(module=mod, cfg=os.path.basename(cfg), cwd=d, workers=1, timeout=1800,
+                             java_opts=SMALL_HEAP, label="line chain n=%d placement %d pscale=%s, check+emit"
+                             % (n, k, "/".join(map(str, c["pscale"])))))
+    stiff = stiff_cases(nid)
+    mod = line_module(d, "MCLineFluxStiff", stiff, base="LineFlux")
+    jobs.append(dict(module=mod, cfg=os.path.basename(cfg), cwd=d, workers=1, timeout=1800, java_opts=SMALL_HEAP,
+                     label="stiff line chains (%d cases), check+emit" % len(stiff)))
+    mod = line_module(d, "MCLineFluxSmall", [], small_ns=LINE_SMALL[ctx.tier], modes=("flux",), base="LineFlux")
+    jobs.append(dict(module=mod, cfg=os.path.basename(cfg), cwd=d, workers=1, timeout=1800, java_opts=SMALL_HEAP,
+                     coverage=True, label="line chains n in %s, every placement, check+emit+action coverage"
+                     % (list(LINE_SMALL[ctx.tier]),)))
+    return jobs
+
+
+def replay_line_flux_case(c):
+    with single_thread():
+        return _replay_line_flux_case(c)
+
+
+def _replay_line_flux_case(c):
+    """Replays one CASE of LineFlux.tla: tridiagonal expected matrices from the printed diagonals."""
+    n = c["n"]
+    T = line_matrix(c)
+    src = [x - 1 for x in c["src"]]
+    snk = [x - 1 for x in c["snk"]]
+    pops = br_vec(c["pops"])
+    up, dn = (np.arange(n - 1), np.arange(1, n)), (np.arange(1, n), np.arange(n - 1))
+    e_fl, e_net = np.zeros((n, n)), np.zeros((n, n))
+    e_fl[up], e_fl[dn] = br_vec(c["fu"]), br_vec(c["fd"])
+    e_net[up], e_net[dn] = br_vec(c["nu"]), br_vec(c["nd"])
+    exp = {"reactive_fluxes": (e_fl, (n, n)), "net_fluxes": (e_net, (n, n)),
+           "reactive_populations": (br_vec(c["rp"]) if c["rp"] else None, (n,))}
+    weights = [x for x in c["w"][:n - 1] + c["s"] if x > 0]
+    stiff = max(weights) >= 10 ** 4 * min(weights)
+    large = n > 64
+    tol = TOL_STIFF if stiff else TOL
+    tol_none = TOL_STIFF_NONE if stiff else (TOL_LARGE_NONE if large else TOL)
+    unscaled = tuple(c["pscale"]) == (1, 1)
+    bad, kinds = [], {}
+    for ci, (cont, M) in enumerate(line_containers(T)):
+        formname, form = FORMS[(c["id"] + ci) % len(FORMS)]
+        for fname in ("reactive_fluxes", "net_fluxes", "reactive_populations"):
+            e, shape = exp[fname]
+            what = "%s %s n=%d populations=%s x stationary, sets as %s" % (fname, cont, n, "/".join(map(str, c["pscale"])),
+                                                                         formname)
+            _call_flux(bad, kinds, fname, cont, what, M, form(src), form(snk), pops, e, shape, tol=tol,
+                       judge=e is not None)
+            # populations=None makes the code compute the stationary probabilities itself (an eigenvector: once per
+            # call; for the large chains only some of the calls)
+            if unscaled and (not large or cont == "dense" or (cont in ("csr", "lil") and fname == "net_fluxes")):
+                _call_flux(bad, kinds, fname, cont, "%s %s n=%d populations=None" % (fname, cont, n), M, np.array(src),
+                           np.array(snk), None, e, shape, tol=tol_none, judge=e is not None)
+    return bad
+
+
+def _report_line(ctx, c, bad):
+    for b in bad:
+        _violation(ctx, {"kind": "replay", "case": c, "call": b["call"], "detail": b["detail"],
+                         "how": "T = X / rowsum(X), X tridiagonal symmetric with X[k][k+1] = w[k], X[i][i] = s[i] "
+                                "(states 1-based in the case, numbers are base-4096 digit lists [numerator, "
+                                "denominator]), populations = pops; fu/fd (nu/nd): (net) flux i -> i+1 / i+1 -> i; "
+                                "tpt.%s vs the exact value printed by LineFlux.tla" % b["call"].split()[0]},
+                   key=b["key"])
 
 
 def _report(ctx, c, bad):
